@@ -163,6 +163,7 @@ void lib_state_restore();
 int64_t lib_live_bytes();
 int64_t lib_live_blocks();
 uint64_t lib_total_allocs();
+void dump_live_since(uint64_t seq_marker);   // diagnostics (VERIF_LEAKDBG=1): live library allocations newer than the marker
 
 // reach counters for library functions (address -> calls), process lifetime
 const std::map<void *, uint64_t> &fn_reach();
